@@ -8,15 +8,29 @@ LOCAL INSTANCE Naturals
 LOCAL INSTANCE Sequences
 LOCAL INSTANCE HdwIO
 LOCAL INSTANCE IOUtils
-CONSTANT Count, ItemAt(_)
+CONSTANT Count, ItemAt(_),
+         Histories      \* number of HISTORY items appended to the workload (0: none)
 VARIABLE n
 LOCAL Slice  == IF "HDW_SLICE" \in DOMAIN IOEnv THEN atoi(IOEnv.HDW_SLICE) ELSE 0
 LOCAL Slices == IF "HDW_SLICES" \in DOMAIN IOEnv THEN atoi(IOEnv.HDW_SLICES) ELSE 1
 \* process k takes the items k+1, k+1+Slices, ... (round robin, so that expensive families are shared);
 \* n is the item just emitted, Slice - Slices + 1 .. 0 before the first
+\* HISTORIES: an item "seq" is a sequence of library calls made on ONE thread of one process, taken from the module's own
+\* workload: six consecutive items from a pseudo-random position (neighbours in a family are related inputs) and
+\* four from elsewhere.  The judge validates every step as if it had been made alone (Judge!JudgeSeq).
+LOCAL LightOps == {"mnemonic.parse", "mnemonic.seed", "path.parse", "path.for_index", "hdk.derive", "key.new", "key.sign", "sig.parse",
+                   "message", "tx.sign", "tx.encode", "typeddata", "eip712.encode_type", "eip712.member_kind",
+                   "rlp.len", "rlp.bytes", "rlp.uint", "rlp.list"}
+LOCAL Light(it) == it.op \in LightOps /\ ~("big" \in DOMAIN it.in) /\ ~("sid" \in DOMAIN it)
+LOCAL HistPick(j, k) == ItemAt(1 + (((j * 7919) + (IF k <= 6 THEN k ELSE (k * 104729) + (j * 31))) % Count))
+LOCAL HistAt(j) ==
+  LET its == SelectSeq([k \in 1..10 |-> HistPick(j, k)], Light)
+  IN  [i |-> 0, op |-> "seq", fam |-> "history", in |-> [steps |-> [k \in 1..Len(its) |-> [op |-> its[k].op, in |-> its[k].in]]]]
+LOCAL Total == Count + Histories
+LOCAL AnyItemAt(g) == IF g <= Count THEN ItemAt(g) ELSE HistAt(g - Count)
 GenInit == n = Slice + 1 - Slices
-GenNext == n + Slices <= Count /\ n' = n + Slices
+GenNext == n + Slices <= Total /\ n' = n + Slices
 GenSpec == GenInit /\ [][GenNext]_n
 \* checked as an invariant: emission happens exactly once per distinct state
-GenEmit == n >= 1 => Emit("workload", [ItemAt(n) EXCEPT !.i = n])
+GenEmit == n >= 1 => Emit("workload", [AnyItemAt(n) EXCEPT !.i = n])
 =============================================================================
